@@ -433,8 +433,22 @@ func (broker *Broker) recover() (send []sts.Hashed, err error) {
 			nPoll,
 		))
 		var polled []sts.Polled
-		if polled, err = broker.Conf.Validator(pollNow); err != nil {
-			return
+		nErr = 0
+		for {
+			if broker.shouldStopNow() {
+				return
+			}
+			// Keep asking (like the recovery request above and the validator
+			// loop do): giving up here would drop everything found so far and
+			// the files still in the cache would not be looked at again until
+			// the next restart.
+			if polled, err = broker.Conf.Validator(pollNow); err != nil {
+				broker.error("Recovery poll request failed:", err.Error())
+				nErr++
+				broker.applyErrorBackoff(nErr)
+				continue
+			}
+			break
 		}
 		broker.info("STARTUP: Processing server response ...")
 		for _, f := range polled {
